@@ -366,10 +366,10 @@ func HtmlEscape(s string) native.HTML {
 // It panics if data is not valid JSON or if prefix or indent contain characters
 // other than ' ' or '\t'.
 func IndentJSON(data native.JSON, prefix, indent string) native.JSON {
-	if !onlyJSONWhitespace(prefix) {
+	if !onlySpacesAndTabs(prefix) {
 		panic("indentJSON: prefix does not contain only whitespace")
 	}
-	if !onlyJSONWhitespace(indent) {
+	if !onlySpacesAndTabs(indent) {
 		panic("indentJSON: indent does not contain only whitespace")
 	}
 	var b bytes.Buffer
@@ -1017,6 +1017,16 @@ var lookupJSONSpace = [256]uint8{'\t': 1, '\n': 1, '\r': 1, ' ': 1}
 func onlyJSONWhitespace(s string) bool {
 	for i := 0; i < len(s); i++ {
 		if lookupJSONSpace[s[i]] == 0 {
+			return false
+		}
+	}
+	return true
+}
+
+// onlySpacesAndTabs reports if s contains only ' ' and '\t' characters.
+func onlySpacesAndTabs(s string) bool {
+	for i := 0; i < len(s); i++ {
+		if s[i] != ' ' && s[i] != '\t' {
 			return false
 		}
 	}
